@@ -120,7 +120,10 @@ def generate(reg, key, budget=None, parallel=None):
                 if enclosing or c.closure:
                     cv = {"__module__": mod}
                     for nm, sh in c.closure.items():
-                        cv[nm] = it.fresh(sh, "clo." + nm)
+                        if isinstance(sh, tuple) and sh and sh[0] == "modvalue":
+                            cv[nm] = it.module_value(mod, sh[1])     # a module-level function / constant of the repository
+                        else:
+                            cv[nm] = it.fresh(sh, "clo." + nm)
                     closure_env = Env(None, cv)
                     closure_env.vars["__qualname__"] = key.split(":")[1].rsplit(".", 1)[0]
                 sp = it.sub(True)
